@@ -17,6 +17,7 @@ Directives (one per line, payload = following non-directive lines):
   //@attr                                 payload placed before the fn (e.g. #[verifier::external_body])
   //@sig                                  payload placed after the signature (requires/ensures/decreases)
   //@loop <n>                             payload placed after the header of the n-th loop of the fn
+  //@loopstart <n> / //@loopend <n>       payload placed at the start / end of the n-th loop's body
   //@before `anchor`[ #n]                 payload placed before the n-th occurrence of the anchor tokens
   //@after `anchor`[ #n]                  payload placed after it
   //@atend                                payload placed before the closing brace of the fn body
@@ -378,9 +379,9 @@ class Extractor:
             elif cmd in ("sig", "attr", "atend", "atstart"):
                 txt, i = payload(i)
                 cur_fn["ins"].append((cmd, None, 1, txt, where))
-            elif cmd == "loop":
+            elif cmd in ("loop", "loopstart", "loopend"):
                 txt, i = payload(i)
-                cur_fn["ins"].append(("loop", int(arg), 1, txt, where))
+                cur_fn["ins"].append((cmd, int(arg), 1, txt, where))
             elif cmd in ("before", "after"):
                 parts, rest = parse_backticks(arg)
                 m = re.search(r"#(\d+)", rest)
@@ -500,13 +501,19 @@ class Extractor:
                 reg.add(toks[it.last].start, toks[it.last].start, "\n" + txt, "ins", "atend")
             elif kind == "atstart":
                 reg.add(toks[body_open].end, toks[body_open].end, "\n" + txt, "ins", "atstart")
-            elif kind == "loop":
+            elif kind in ("loop", "loopstart", "loopend"):
                 if loops is None:
                     loops = find_loops(toks, brk, body_open + 1, it.last)
                 if arg > len(loops):
                     raise ExtractError("lost-anchor", f"{where}: loop {arg} not found in {f['path']} (has {len(loops)})")
                 kwi, bi = loops[arg - 1]
-                reg.add(toks[bi].start, toks[bi].start, "\n" + txt, "ins", f"loop {arg}")
+                if kind == "loop":
+                    reg.add(toks[bi].start, toks[bi].start, "\n" + txt, "ins", f"loop {arg}")
+                elif kind == "loopstart":
+                    reg.add(toks[bi].end, toks[bi].end, "\n" + txt, "ins", f"loopstart {arg}")
+                else:
+                    ce = brk[bi]
+                    reg.add(toks[ce].start, toks[ce].start, "\n" + txt, "ins", f"loopend {arg}")
             elif kind in ("before", "after"):
                 pt = tokenize(arg)
                 hits = find_seq(toks, it.first, it.last + 1, pt)
